@@ -31,7 +31,7 @@ TwoObjCalls(o) ==
 ValT == IF Kind = "expected" THEN Alts[1] ELSE Alts[2]       \* value type of optional / expected
 
 CallsOptional(o) ==
-    {C(op, X0) : op \in ClearOps \cup {"and_then", "or_else", "transform", "deref", "arrow", "value", "deref_mv",
+    {C(op, X0) : op \in ClearOps \cup SelfOps \cup {"and_then", "or_else", "transform", "deref", "arrow", "value", "deref_mv",
                                        "cmp_null", "cmp_null_r"}}
     \cup UNION {{C(op, [X0 EXCEPT !.t = t, !.v = v, !.m = m]) : op \in ValueOps, v \in Dom(t), m \in Ms(t)} : t \in SrcTypes}
     \cup {C(op, [X0 EXCEPT !.i = 1, !.v = v]) : op \in {"ctor_inplace", "emplace"}, v \in Dom(ValT)}
@@ -53,13 +53,13 @@ CallsOptRef(o) ==
     \cup {C("conv_ref", [X0 EXCEPT !.si = si, !.v = v]) : si \in 0..1, v \in 0..2}
 
 CallsVariant(o) ==
-    {C(op, X0) : op \in {"ctor_default", "visit_mv"}}
+    {C(op, X0) : op \in {"ctor_default", "visit_mv"} \cup SelfOps}
     \cup UNION {{C(op, [X0 EXCEPT !.t = t, !.v = v, !.m = m]) : op \in ValueOps, v \in Dom(t), m \in Ms(t)} : t \in SrcTypes}
     \cup UNION {{C(op, [X0 EXCEPT !.i = i, !.v = v]) : op \in PlaceOps, v \in Dom(Ty(Alts, i))} : i \in 0..(N - 1)}
     \cup TwoObjCalls(o)
 
 CallsExpected(o) ==
-    {C(op, X0) : op \in {"ctor_default", "and_then", "or_else", "transform", "transform_error", "deref", "arrow",
+    {C(op, X0) : op \in SelfOps \cup {"ctor_default", "and_then", "or_else", "transform", "transform_error", "deref", "arrow",
                          "value", "error", "deref_mv", "error_mv"}}
     \cup UNION {{C(op, [X0 EXCEPT !.t = t, !.v = v, !.m = m]) : op \in ValueOps \cup UnexOps, v \in Dom(t), m \in Ms(t)} : t \in SrcTypes}
     \cup UNION {{C("ctor_inplace", [X0 EXCEPT !.i = i, !.v = v]) : v \in Dom(Ty(Alts, i))} : i \in 0..1}
